@@ -167,3 +167,306 @@ Proof.
   - rewrite <- app_assoc. cbn [app]. apply at_or_under_intro; [exact E|]. right. now exists (n ++ rest).
 Qed.
 End Paths2.
+
+(* ------------------------------------------------------------------ hypotheses (decidable) *)
+Definition links (c : cfgT) (n : bytes) : list bytes :=
+  [pathjoin [c_exports c; c_exp_binpkg c; n]; pathjoin [c_exports c; c_exp_gen c; n]].
+Lemma automated_links c l : map fst (automated_exports c l) = links c (l_name l).
+Proof. reflexivity. Qed.
+
+Definition rename_ok (c : cfgT) (f : fsT) (oldname newname : bytes) : bool :=
+  (* the export links of the layer lie apart from the layers directory *)
+  forallb (fun lk => forallb (fun en => negb (at_or_under lk (fst en) && at_or_under (c_layers c) (fst en))) f)
+          (links c oldname)
+  (* the new directory name is free on disk *)
+  && forallb (fun en => negb (at_or_under (layer_path c newname) (fst en))) f
+  (* no stale temporary (nor anything below its name) for any layer directory, nor for the new name *)
+  && forallb (fun nn => tmp_free c f nn) (children f (c_layers c))
+  && tmp_free c f newname
+  (* nothing strictly below the layer directory claims the layers directory as its parent *)
+  && forallb (fun en => negb (under (layer_path c oldname) (fst en) && beq (pathdir (fst en)) (c_layers c))) f.
+Definition wf_rename (c : cfgT) (f : fsT) (oldname newname : bytes) : bool :=
+  wf_cfg c && lc_regular c f && rename_ok c f oldname newname.
+
+Section Rename.
+Variable c : cfgT.
+Variable f : fsT.
+Variable e : env.
+Variable um : users_map.
+Variables oldname newname : bytes.
+Hypothesis Hcfg : wf_cfg c = true.
+Hypothesis Hreal : e_pretend e = false.
+Hypothesis R3 : forall lk en, In lk (links c oldname) -> In en f -> at_or_under lk (fst en) = true ->
+                              at_or_under (c_layers c) (fst en) = false.
+Hypothesis R4 : forall en, In en f -> at_or_under (layer_path c newname) (fst en) = false.
+Hypothesis R5 : forall nn en, In nn (children f (c_layers c)) \/ nn = newname -> In en f ->
+                              at_or_under (pathjoin [layer_path c nn; LCF] ++ tmp_suffix) (fst en) = false.
+
+Local Notation L := (c_layers c).
+Local Notation m0 := (read_layer_files c f).
+
+(* intermediate trees: f with entries outside the layers directory removed *)
+Definition SubL (g : fsT) : Prop :=
+  incl g f /\ (forall en, In en f -> at_or_under L (fst en) = true -> In en g)
+  /\ (forall k, at_or_under L k = true -> fs_get g k = fs_get f k).
+Lemma SubL_refl : SubL f.
+Proof. repeat split; auto. apply incl_refl. Qed.
+
+Lemma SubL_remove g lk g' : In lk (links c oldname) -> SubL g -> remove_all g lk = FOk g' -> SubL g'.
+Proof.
+  intros Hlk (H1 & H2 & H3). unfold remove_all. destruct (beq lk root); [discriminate|]. intros H. injection H as <-.
+  repeat split.
+  - intros en Hen. apply filter_In in Hen as [Hen _]. now apply H1.
+  - intros en Hen Hu. apply filter_In. split; [now apply H2|]. apply negb_true_iff.
+    destruct (at_or_under lk (fst en)) eqn:E; [|reflexivity]. rewrite (R3 lk en Hlk Hen E) in Hu. discriminate.
+  - intros k Hk. rewrite <- (H3 k Hk).
+    apply (fs_get_filter_key (fun q => negb (at_or_under lk q))). intros Hne.
+    destruct (fs_get g k) as [n|] eqn:Eg; [|congruence]. apply fs_get_in in Eg. apply H1 in Eg.
+    apply negb_true_iff. destruct (at_or_under lk k) eqn:E; [|reflexivity].
+    pose proof (R3 lk (k, n) Hlk Eg E) as C. cbn [fst] in C. congruence.
+Qed.
+
+Definition TT (g : fsT) : Prop := True.
+Lemma p_links_SubL x : l_name x = oldname -> pres SubL TT (remove_export_links e c x).
+Proof.
+  intros Hx. assert (HE : forall g, SubL g -> TT g) by (intros; exact I).
+  unfold remove_export_links. apply (p_mapM SubL TT). intros lt Hlt.
+  assert (Hlk : In (fst lt) (links c oldname)).
+  { rewrite <- Hx, <- automated_links. now apply in_map. }
+  apply (p_bind SubL TT); [apply (p_get_fs SubL TT)|]. intros g0.
+  destruct (negb (exists_ g0 (fst lt))); [apply (p_ret SubL TT)|].
+  destruct (negb (is_symlink g0 (fst lt))); [apply (p_fail SubL TT HE)|].
+  apply h_fs_remove; [exact Hreal|exact HE|]. intros g g' Hg Hr. eapply SubL_remove; eauto.
+Qed.
+
+(* ------------------------------------------------------------------ the rewrites after the move *)
+Definition Xk (k : layer) : bytes := concat (layerfile_chunks newname (l_mounts k) (l_exports k)).
+Definition step (g : fsT) (k : layer) : fsT := rewritten g (PC c (l_name k)) (Xk k).
+
+Variable NS : list bytes.
+Hypothesis NS_plain : forall n, In n NS -> plain n.
+Definition TF (g : fsT) : Prop := forall n, In n NS -> forall en, In en g -> at_or_under (TC c n) (fst en) = false.
+
+Lemma TF_rewritten g m x : plain m -> TF g -> TF (rewritten g (PC c m) x).
+Proof.
+  intros Hm HT n Hn en Hen. unfold rewritten in Hen. apply in_app_or in Hen as [Hen|[<-|[]]].
+  - apply filter_In in Hen as [Hen _]. now apply (HT n Hn).
+  - cbn [fst]. apply (TC_not_over_PC c Hcfg); auto.
+Qed.
+
+Definition Kok (k : layer) : Prop := l_path k = layer_path c (l_name k) /\ plain (l_name k) /\ In (l_name k) NS.
+
+Lemma W_exact g0 k : Kok k -> TF g0 ->
+  hoare (fun g => g = g0) (write_layerfile e (set_base k newname)) (fun _ g => g = step g0 k) TT.
+Proof.
+  intros (Hp & Hn & Hin) HT. unfold write_layerfile, layerconfig_path. cbn [set_base l_path l_base l_mounts l_exports].
+  rewrite Hp. change D_LayerconfigFile with LCF. rewrite (PC_eq c Hcfg _ Hn).
+  eapply h_conseq; [apply (wfa_exact e Hreal g0); intros en Hen; apply (HT _ Hin en Hen)|auto| |auto].
+  intros u g ->. reflexivity.
+Qed.
+
+Lemma mapM_exact KS : forall g0, (forall k, In k KS -> Kok k) -> TF g0 ->
+  hoare (fun g => g = g0) (mapM_ (fun k => write_layerfile e (set_base k newname)) KS)
+        (fun _ g => g = fold_left step KS g0 /\ TF g) TT.
+Proof.
+  induction KS as [|k r IH]; intros g0 HK HT; cbn [mapM_ fold_left].
+  - apply h_ret. intros g ->. auto.
+  - eapply h_bind; [apply W_exact; [apply HK; now left|exact HT]|]. intros u.
+    apply IH; [intros k' Hk'; apply HK; now right|].
+    destruct (HK k (or_introl eq_refl)) as (_ & Hn & _). now apply TF_rewritten.
+Qed.
+End Rename.
+
+(* ------------------------------------------------------------------ the layer map and its kids *)
+Lemma in_map_static m m' k : map static m = map static m' -> In k m -> exists x, In x m' /\ static k = static x.
+Proof.
+  intros E Hk. assert (H : In (static k) (map static m')) by (rewrite <- E; now apply in_map).
+  apply in_map_iff in H as (x & Hx & Hin). exists x. auto.
+Qed.
+
+Lemma loaded_same_name c g x y : In x (read_layer_files c g) -> In y (read_layer_files c g) ->
+  l_name x = l_name y -> x = y.
+Proof.
+  intros Hx Hy E. destruct (loaded_named c g x Hx) as (_ & _ & H1). destruct (loaded_named c g y Hy) as (_ & _ & H2).
+  rewrite E in H1. congruence.
+Qed.
+
+Lemma lm_get_of_in m k : In k m -> exists k1, lm_get m (l_name k) = Some k1.
+Proof.
+  induction m as [|x r IH]; [intros []|]. intros [->|H]; cbn [lm_get].
+  - rewrite beq_refl. now exists k.
+  - destruct (beq (l_name x) (l_name k)); [now exists x|now apply IH].
+Qed.
+
+Lemma kids_sound e m name k : In k (children_in_order e m name) -> In k m /\ l_base k = name.
+Proof.
+  unfold children_in_order. intros H. apply in_app_or in H as [H|H].
+  - apply in_flat_map in H as (n & _ & H). destruct (lm_get (filter _ m) n) as [l|] eqn:E; [|contradiction].
+    destruct H as [<-|[]]. apply lm_get_in in E as [E _]. apply filter_In in E as [E1 E2]. apply beq_true in E2. auto.
+  - apply filter_In in H as [H _]. apply filter_In in H as [E1 E2]. apply beq_true in E2. auto.
+Qed.
+Lemma kids_complete e m name k0 : In k0 m -> l_base k0 = name ->
+  exists k, In k (children_in_order e m name) /\ l_name k = l_name k0.
+Proof.
+  intros Hin Hb. unfold children_in_order.
+  assert (Hk : In k0 (filter (fun l => beq (l_base l) name) m)).
+  { apply filter_In. split; [exact Hin|]. rewrite Hb. apply beq_refl. }
+  destruct (memb (l_name k0) (e_order e)) eqn:Em.
+  - apply memb_in in Em. destruct (lm_get_of_in _ _ Hk) as (k1 & E1). exists k1. split.
+    + apply in_or_app. left. apply in_flat_map. exists (l_name k0). split; [exact Em|]. rewrite E1. now left.
+    + now apply lm_get_in in E1 as [_ E1].
+  - exists k0. split; [|reflexivity]. apply in_or_app. right. apply filter_In. split; [exact Hk|]. now rewrite Em.
+Qed.
+
+Lemma test_name_free_none m n : test_name m n NFree = true -> lm_get m n = None.
+Proof.
+  unfold test_name. destruct n; [discriminate|]. intros H. apply andb_true_iff in H as [_ H].
+  destruct (lm_get m (a :: n)); [discriminate|reflexivity].
+Qed.
+
+Lemma h_pure_eq {A} (R : Prop) (X : fsT) (m : M A) (Q : A -> fsT -> Prop) (E : fsT -> Prop) :
+  (R -> hoare (fun g => g = X) m Q E) -> hoare (fun g => R /\ g = X) m Q E.
+Proof. intros H s [Hr Hs]. apply (H Hr s Hs). Qed.
+
+Lemma rel_suffix_tail a q : at_or_under a q = true -> tail_ok (rel_suffix a q).
+Proof.
+  intros H. destruct (at_or_under_cases a q H) as [[_ ->]|(a' & r & _ & -> & _)]; [now left|right; now exists r].
+Qed.
+
+Section RenameRun.
+Variable c : cfgT.
+Variable f : fsT.
+Variable e : env.
+Variable um : users_map.
+Variables oldname newname : bytes.
+Hypothesis Hcfg : wf_cfg c = true.
+Hypothesis Hreal : e_pretend e = false.
+Hypothesis R3 : forall lk en, In lk (links c oldname) -> In en f -> at_or_under lk (fst en) = true ->
+                              at_or_under (c_layers c) (fst en) = false.
+Hypothesis R4 : forall en, In en f -> at_or_under (layer_path c newname) (fst en) = false.
+Hypothesis R5 : forall nn en, In nn (children f (c_layers c)) \/ nn = newname -> In en f ->
+                              at_or_under (pathjoin [layer_path c nn; LCF] ++ tmp_suffix) (fst en) = false.
+
+Local Notation m0 := (read_layer_files c f).
+Local Notation d := (LP c oldname).
+Local Notation d' := (LP c newname).
+
+Lemma TF_moved NS g1 : (forall n, In n NS -> plain n) -> plain oldname -> plain newname -> incl g1 f ->
+  (forall n en, In n NS -> In en f -> at_or_under (TC c n) (fst en) = false) ->
+  (forall en, In en f -> at_or_under (TC c oldname) (fst en) = false) ->
+  TF c NS (map (move_entry d d') g1).
+Proof.
+  intros HNS Ho Hn Hinc HF Hold n Hin en Hen. apply in_map_iff in Hen as ([q nd] & <- & Hq). apply Hinc in Hq.
+  unfold move_entry. cbn [fst snd]. destruct (at_or_under d q) eqn:Eu; cbn [fst].
+  - destruct (at_or_under (TC c n) (d' ++ rel_suffix d q)) eqn:Et; [|reflexivity]. exfalso.
+    destruct (TC_under c Hcfg n newname _ _ (HNS n Hin) Hn Et eq_refl (rel_suffix_tail _ _ Eu)) as (_ & rest2 & Er & Ht2).
+    pose proof (at_or_under_join d q (LP_not_root c Hcfg oldname Ho) Eu) as Eq. rewrite Er in Eq.
+    assert (Hu : at_or_under (TC c oldname) q = true).
+    { rewrite Eq. replace (d ++ sl :: LCT ++ rest2) with (TC c oldname ++ rest2).
+      - apply at_or_under_intro; [now apply TC_not_root|exact Ht2].
+      - unfold TC, PC, LCT. rewrite <- !app_assoc. reflexivity. }
+    pose proof (Hold (q, nd) Hq) as Hc. cbn [fst] in Hc. congruence.
+  - apply (HF n (q, nd) Hin Hq).
+Qed.
+
+(* the tree after a successful rename *)
+Definition renamed (g' : fsT) : Prop := exists x0 g1 na KS,
+  lm_get m0 oldname = Some x0 /\ plain oldname /\ plain newname /\ lm_get m0 newname = None
+  /\ check_inheritance m0 = true
+  /\ SubL c f g1 /\ In (d, na) g1
+  /\ (forall k, In k KS -> exists x, In x m0 /\ static k = static x /\ l_base x = oldname)
+  /\ (forall x, In x m0 -> l_base x = oldname -> exists k, In k KS /\ static k = static x)
+  /\ g' = rewritten (fold_left (step c newname) KS (map (move_entry d d') g1)) (PC c newname)
+                    (concat (layerfile_chunks (l_base x0) (l_mounts x0) (l_exports x0))).
+
+Lemma rename_run : hoare (fun g => g = f) (run_command e c um (CRename oldname newname)) (fun _ => renamed) TT.
+Proof.
+  assert (HT : forall (P : fsT -> Prop) g, P g -> TT g) by (intros; exact I).
+  unfold run_command. apply h_get_fs_eq. apply h_guard_then; [apply HT|]. intros _.
+  eapply h_bind; [eapply h_conseq; [apply (get_layers_spec_ci c um f)|auto|intros ld g Hq; exact Hq|apply HT]|].
+  intros ld. cbn beta. apply h_pure. intros [Est Hci].
+  eapply h_bind; [|intros ld'; apply h_ret; intros g Hg; exact Hg].
+  unfold rename_layer. apply h_guard_then; [apply HT|]. intros G1. apply andb_true_iff in G1 as [Gold Gnew].
+  apply test_name_need in Gold as [Hne_o Hleg_o]. pose proof (test_name_free_none _ _ Gnew) as Hnone.
+  apply test_name_free in Gnew as [Hne_n Hleg_n].
+  pose proof (legal_plain _ Hleg_o Hne_o) as Hpo. pose proof (legal_plain _ Hleg_n Hne_n) as Hpn.
+  pose proof (lm_get_static _ _ oldname Est) as Hs.
+  destruct (lm_get (ld_map ld) oldname) as [l|] eqn:El; [|apply h_panic; apply HT].
+  destruct (lm_get m0 oldname) as [x0|] eqn:Ex0; [|contradiction].
+  pose proof (lm_get_static _ _ newname Est) as Hs2. rewrite Hnone in Hs2.
+  destruct (lm_get m0 newname) as [xn|] eqn:Exn; [contradiction|]. clear Hs2.
+  destruct (lm_get_in _ _ _ Ex0) as [Hx0in Hx0n]. destruct (lm_get_in _ _ _ El) as [Hlin Hln].
+  pose proof (loaded_path c f) as HLP. rewrite Forall_forall in HLP.
+  assert (Hlp : l_path l = d).
+  { rewrite (static_path _ _ Hs), (HLP x0 Hx0in), Hx0n. now apply (LP_eq c Hcfg). }
+  apply h_guard_then; [apply HT|]. intros _. apply h_guard_then; [apply HT|]. intros _. cbv zeta.
+  apply h_guard_then; [apply HT|]. intros _.
+  set (KS := children_in_order e (ld_map ld) oldname).
+  (* facts about the kids *)
+  assert (KSs : forall k, In k KS -> exists x, In x m0 /\ static k = static x /\ l_base x = oldname).
+  { intros k Hk. apply kids_sound in Hk as [Hk Hb]. destruct (in_map_static _ _ k Est Hk) as (x & Hx & Hst).
+    exists x. repeat split; auto. now rewrite <- (static_base _ _ Hst). }
+  assert (KSc : forall x, In x m0 -> l_base x = oldname -> exists k, In k KS /\ static k = static x).
+  { intros x Hx Hb. symmetry in Est. destruct (in_map_static _ _ x Est Hx) as (k0 & Hk0 & Hst0).
+    assert (Hb0 : l_base k0 = oldname) by now rewrite <- (static_base _ _ Hst0).
+    destruct (kids_complete e _ _ k0 Hk0 Hb0) as (k & Hk & Hn). exists k. split; [exact Hk|].
+    apply kids_sound in Hk as [Hk _]. symmetry in Est.
+    destruct (in_map_static _ _ k Est Hk) as (y & Hy & Hsty). rewrite Hsty.
+    assert (y = x); [|now subst].
+    apply (loaded_same_name c f y x Hy Hx). rewrite <- (static_name _ _ Hsty), Hn, <- (static_name _ _ Hst0). reflexivity. }
+  assert (KSn : forall k, In k KS -> l_path k = layer_path c (l_name k) /\ plain (l_name k)
+                                      /\ In (l_name k) (children f (c_layers c))).
+  { intros k Hk. destruct (KSs k Hk) as (x & Hx & Hst & _).
+    destruct (loaded_named c f x Hx) as (Hch & Hlg & _).
+    rewrite (static_path _ _ Hst), (static_name _ _ Hst). split; [now apply HLP|split; [|exact Hch]].
+    apply legal_plain; [exact Hlg|]. apply children_in in Hch as (q & nd & _ & _ & _ & <-). apply pathbase_nonempty. }
+  set (NS := newname :: map l_name KS).
+  assert (HNS : forall n, In n NS -> plain n).
+  { intros n [<-|Hn]; [exact Hpn|]. apply in_map_iff in Hn as (k & <- & Hk). now destruct (KSn k Hk) as (_ & H & _). }
+  assert (HF : forall n en, In n NS -> In en f -> at_or_under (TC c n) (fst en) = false).
+  { intros n en Hn Hen. unfold TC. rewrite <- (PC_eq c Hcfg n (HNS n Hn)). apply R5; [|exact Hen].
+    destruct Hn as [<-|Hn]; [now right|left]. apply in_map_iff in Hn as (k & <- & Hk). now destruct (KSn k Hk) as (_ & _ & H). }
+  assert (Hold : forall en, In en f -> at_or_under (TC c oldname) (fst en) = false).
+  { intros en Hen. unfold TC. rewrite <- (PC_eq c Hcfg oldname Hpo). apply R5; [left|exact Hen].
+    destruct (loaded_named c f x0 Hx0in) as (Hch & _). now rewrite Hx0n in Hch. }
+  (* the export links *)
+  apply h_bind with (Q := fun _ => SubL c f).
+  { eapply h_pre; [apply (p_links_SubL c f e oldname Hreal R3 l Hln)|]. intros g ->. apply SubL_refl. }
+  intros u1.
+  (* the directory *)
+  apply h_bind with (Q := fun _ g => exists g1 na, (SubL c f g1 /\ In (d, na) g1) /\ g = map (move_entry d d') g1).
+  { rewrite Hlp, (LP_eq c Hcfg newname Hpn). apply h_fs_rename; [exact Hreal|apply HT|].
+    intros g g' Hg Hr.
+    assert (Hl : lstat g d' = None).
+    { unfold lstat. destruct (fs_get g d') as [nd|] eqn:Eg; [|reflexivity]. apply fs_get_in in Eg.
+      destruct Hg as (Hinc & _). apply Hinc in Eg. apply R4 in Eg. cbn [fst] in Eg.
+      rewrite (LP_eq c Hcfg newname Hpn), at_or_under_refl in Eg. discriminate. }
+    assert (Hab : at_or_under d d' = false).
+    { destruct (at_or_under d d') eqn:Eu; [|reflexivity]. exfalso.
+      assert (oldname = newname).
+      { apply (LP_under_inj c Hcfg oldname newname d' [] Hpo Hpn Eu); [now rewrite app_nil_r|now left]. }
+      subst newname. congruence. }
+    destruct (rename_fresh _ _ _ _ Hr Hl Hab) as (-> & na & Hna). exists g, na. auto. }
+  intros u2. apply h_ex. intros g1. apply h_ex. intros na. apply h_pure_eq. intros [HS Hna].
+  set (g2 := map (move_entry d d') g1).
+  assert (HT2 : TF c NS g2).
+  { apply TF_moved; auto. now destruct HS as (Hinc & _). }
+  (* the kids *)
+  eapply h_bind.
+  { apply (mapM_exact c e newname Hcfg Hreal NS HNS KS g2); [|exact HT2].
+    intros k Hk. destruct (KSn k Hk) as (H1 & H2 & _). split; [exact H1|split; [exact H2|]].
+    unfold NS. right. now apply in_map. }
+  intros u3. cbn beta.
+  apply h_bind with (Q := fun _ g => TF c NS (fold_left (step c newname) KS g2) /\ g = fold_left (step c newname) KS g2).
+  { unfold renormalize. destruct (normalize_order _); [apply h_ret; intros g [-> Ht]; auto|apply h_diverge; apply HT]. }
+  intros ld'. apply h_pure_eq. intros HT3.
+  eapply h_bind; [|intros u4; apply h_ret; intros g Hg; exact Hg].
+  unfold write_layerfile, layerconfig_path. cbn [set_name_path l_path l_base l_mounts l_exports].
+  change D_LayerconfigFile with LCF. rewrite (PC_eq c Hcfg newname Hpn).
+  rewrite (static_base _ _ Hs), (static_mounts _ _ Hs), (static_exports _ _ Hs).
+  eapply h_conseq; [apply (wfa_exact e Hreal (fold_left (step c newname) KS g2))|auto| |apply HT].
+  - intros en Hen. apply (HT3 newname (or_introl eq_refl) en Hen).
+  - cbn beta. intros u g ->. exists x0, g1, na, KS.
+    exact (conj Ex0 (conj Hpo (conj Hpn (conj Exn (conj Hci (conj HS (conj Hna (conj KSs (conj KSc eq_refl))))))))).
+Qed.
+End RenameRun.
